@@ -88,6 +88,14 @@ class ProgGen:
         self.features.add(f)
 
     def emit(self, text=""):
+        if text and self.lines and self.r.random() < 0.03:
+            # comment-only lines at any column (0, the block's indent, deeper) and trailing comments never change the program
+            col = self.r.choice([0, 0, 4 * self.ind, 4 * self.ind + 4, max(0, 4 * self.ind - 4), 1])
+            self.lines.append(" " * col + self.r.choice(["# note", "#", "# TODO: tune", "#led.on()", "# while True:"]))
+            self.feat("comment-line")
+        if text and self.r.random() < 0.03 and '"' not in text and "'" not in text:
+            text = text + self.r.choice(["  # trailing", " # x = 1", "  #"])
+            self.feat("trailing-comment")
         self.lines.append(("    " * self.ind + text) if text else "")
 
     def fresh(self, prefix="v"):
